@@ -25,10 +25,18 @@ Proof.
   intros <- L. rewrite splice_after by (rewrite app_length; lia).
   rewrite L, drop_app_len. reflexivity.
 Qed.
+Lemma slice_mid {A} (a m t : list A) o n : length a = o -> length m = n -> slice o n (a ++ m ++ t) = m.
+Proof. intros <- <-. rewrite slice_after. apply take_app_len. Qed.
 Lemma take_app_le {A} (a b : list A) n : (n <= length a)%nat -> take n (a ++ b) = take n a.
-Proof. intros H. rewrite !take_firstn. apply firstn_app_le. exact H. Qed.
+Proof.
+  revert a. induction n as [|n IH]; intros a H; [reflexivity|].
+  destruct a as [|x a]; [cbn in H; lia|]. cbn. rewrite IH by (cbn in H; lia). reflexivity.
+Qed.
 Lemma drop_app_le {A} (a b : list A) n : (n <= length a)%nat -> drop n (a ++ b) = drop n a ++ b.
-Proof. intros H. rewrite !drop_skipn. apply skipn_app_le. exact H. Qed.
+Proof.
+  revert a. induction n as [|n IH]; intros a H; [reflexivity|].
+  destruct a as [|x a]; [cbn in H; lia|]. cbn. apply IH. cbn in H. lia.
+Qed.
 
 (* the shuffles as functions on the destination block, n = 4 * cc *)
 Definition adjust_dst (n : nat) (dd : bytes) : bytes :=
@@ -48,7 +56,8 @@ Proof.
     rewrite take_app_le by (rewrite drop_length; lia). rewrite <- (take_all (drop n M)) at 2.
     rewrite drop_length. f_equal. lia. }
   rewrite E1, E2.
-  rewrite <- (take_drop_id 4 M) at 2. rewrite <- (app_assoc (take 4 M)), (app_assoc H).
+  replace (H ++ M ++ T) with ((H ++ take 4 M) ++ drop 4 M ++ T)
+    by (rewrite <- (take_drop_id 4 M) at 3; rewrite <- !app_assoc; reflexivity).
   rewrite (splice_mid (H ++ take 4 M) (drop 4 M) T (take n M) 16)
     by (rewrite ?app_length, ?take_length, ?drop_length; lia).
   rewrite <- app_assoc.
@@ -68,7 +77,8 @@ Proof.
     rewrite take_app_le by (rewrite drop_length; lia). rewrite <- (take_all (drop 4 M)) at 2.
     rewrite drop_length. f_equal. lia. }
   rewrite E1, E2.
-  rewrite <- (take_drop_id n M) at 2. rewrite <- (app_assoc (take n M)).
+  replace (H ++ M ++ T) with (H ++ take n M ++ drop n M ++ T)
+    by (rewrite <- (take_drop_id n M) at 3; rewrite <- !app_assoc; reflexivity).
   rewrite (splice_mid H (take n M) _ (drop 4 M) 12 LH) by (rewrite take_length, drop_length; lia).
   rewrite (app_assoc H).
   rewrite (splice_mid (H ++ drop 4 M) (drop n M) T (take 4 M) (12 + n))
@@ -82,9 +92,9 @@ Lemma split_hdr n (dd : bytes) : (12 + n + 4 <= length dd)%nat ->
                 H = take 12 dd /\ M = slice 12 (n + 4) dd /\ T = drop (12 + n + 4) dd.
 Proof.
   intros L. exists (take 12 dd), (slice 12 (n + 4) dd), (drop (12 + n + 4) dd).
-  split; [|split; [apply take_len_le; lia|split; [rewrite slice_length; lia|auto]]].
+  split; [|split; [apply take_len_le; lia|split; [rewrite slice_length; lia|repeat split]]].
   unfold slice. rewrite <- (take_drop_id 12 dd) at 1. f_equal.
-  rewrite <- (take_drop_id (n + 4) (drop 12 dd)) at 1. f_equal. rewrite drop_drop. f_equal. lia.
+  rewrite <- (take_drop_id (n + 4) (drop 12 dd)) at 1. f_equal. rewrite drop_drop. f_equal; lia.
 Qed.
 
 (* the layout after adjust: [12,16) holds the extension header, [16,16+n) the CSRC list *)
@@ -96,8 +106,8 @@ Proof.
   intros L. destruct (split_hdr n dd L) as (H & M & T & E & LH & LM & EH & EM & ET).
   assert (A : adjust_dst n dd = H ++ drop n M ++ take n M ++ T) by (rewrite E; apply adjust_dst_app; assumption).
   assert (S1 : slice (12 + n) 4 dd = drop n M).
-  { rewrite EM. unfold slice. rewrite !take_firstn, !drop_skipn.
-    rewrite <- firstn_skipn_comm, skipn_skipn. rewrite (Nat.add_comm n 12). f_equal. lia. }
+  { rewrite EM. unfold slice at 2. rewrite <- (slice_alt n 4 (drop 12 dd)). unfold slice.
+    rewrite drop_drop. reflexivity. }
   assert (S2 : slice 12 n dd = take n M).
   { rewrite EM. unfold slice. rewrite take_take. f_equal. lia. }
   split; [|split].
@@ -105,7 +115,155 @@ Proof.
   - rewrite A, S1. rewrite (slice_app_exact H _ 12 4 LH). rewrite <- (take_all (drop n M)) at 2.
     rewrite drop_length, LM. replace (n + 4 - n)%nat with 4%nat by lia. apply take_app_le.
     rewrite drop_length. lia.
-  - rewrite A, S2. rewrite (app_assoc H). apply slice_app_exact_take.
+  - rewrite A, S2. rewrite (app_assoc H). apply slice_mid.
     + rewrite app_length, drop_length. lia.
     + rewrite take_length. lia.
 Qed.
+
+Theorem restore_adjust_dst n dd : (12 + n + 4 <= length dd)%nat -> restore_dst n (adjust_dst n dd) = dd.
+Proof.
+  intros L. destruct (split_hdr n dd L) as (H & M & T & E & LH & LM & _).
+  rewrite E at 1. rewrite adjust_dst_app by assumption.
+  rewrite (app_assoc (drop n M)).
+  rewrite restore_dst_app by (rewrite ?app_length, ?take_length, ?drop_length; lia).
+  assert (L4 : length (drop n M) = 4%nat) by (rewrite drop_length; lia).
+  rewrite (drop_app_exact _ _ _ L4), (take_app_exact _ _ _ L4), (app_assoc (take n M)), take_drop_id.
+  symmetry. exact E.
+Qed.
+
+(* and the other way round (unprotect: adjust, decrypt, restore) *)
+Theorem adjust_restore_dst n dd : (12 + n + 4 <= length dd)%nat -> adjust_dst n (restore_dst n dd) = dd.
+Proof.
+  intros L. destruct (split_hdr n dd L) as (H & M & T & E & LH & LM & _).
+  rewrite E at 1. rewrite restore_dst_app by assumption.
+  rewrite (app_assoc (drop 4 M)).
+  rewrite adjust_dst_app by (rewrite ?app_length, ?take_length, ?drop_length; lia).
+  assert (L4 : length (drop 4 M) = n) by (rewrite drop_length; lia).
+  rewrite (drop_app_exact _ _ _ L4), (take_app_exact _ _ _ L4), (app_assoc (take 4 M)), take_drop_id.
+  symmetry. exact E.
+Qed.
+
+(* ===================================================================== *)
+(* the computations                                                       *)
+(* the world after writing the destination: new content, oob flag raised when bad *)
+Definition set_dst (w : world) (dd : bytes) (bad : bool) : world :=
+  {| w_s := w_s w;
+     w_b := {| b_src := b_src (w_b w); b_dst := dd; b_alias := b_alias (w_b w); b_len := b_len (w_b w);
+               b_cap := b_cap (w_b w); b_oob := b_oob (w_b w) || bad |};
+     w_ev := w_ev w; w_iv := w_iv w; w_h := w_h w |}.
+
+Lemma wr_dst_run off v w :
+  wr_dst off v w = (set_dst w (splice (zn off) v (b_dst (w_b w))) ((off <? 0) || (b_cap (w_b w) <? off + lenZ v)), inl tt).
+Proof. reflexivity. Qed.
+Lemma rd_dst_run off n w :
+  0 <= off -> 0 <= n -> off + n <= lenZ (b_dst (w_b w)) ->
+  rd_dst off n w = (w, inl (slice (zn off) (zn n) (b_dst (w_b w)))).
+Proof.
+  intros H1 H2 H3. unfold rd_dst, bind, get_b.
+  assert (Hc : (off <? 0) || (n <? 0) || (lenZ (b_dst (w_b w)) <? off + n) = false)
+    by (rewrite !orb_false_iff, !Z.ltb_ge; lia).
+  rewrite Hc. reflexivity.
+Qed.
+Lemma set_dst_set_dst w d1 b1 d2 b2 : set_dst (set_dst w d1 b1) d2 b2 = set_dst w d2 (b1 || b2).
+Proof. unfold set_dst. cbn. rewrite orb_assoc. reflexivity. Qed.
+Lemma set_dst_id w : set_dst w (b_dst (w_b w)) false = w.
+Proof. destruct w as [s [a b c d e f] ev iv h]. unfold set_dst. cbn. rewrite orb_false_r. reflexivity. Qed.
+
+Section RUN.
+Variables (pkt : bytes) (w : world).
+Let cc := hdr_cc pkt.
+Let n := zn (4 * cc).
+Let dd := b_dst (w_b w).
+Hypothesis CCnz : cc <> 0.
+Hypothesis Hlen : hdr_len pkt + 4 <= lenZ dd.
+
+Lemma cc_facts : 0 < cc < 16 /\ hdr_len pkt = 12 + 4 * cc /\ Z.of_nat n = 4 * cc.
+Proof. pose proof (hdr_cc_range pkt). subst cc n. unfold zn. split; [lia|]. split; [reflexivity|lia]. Qed.
+
+Theorem cryptex_adjust_run :
+  cryptex_adjust pkt w = (set_dst w (adjust_dst n dd) (b_cap (w_b w) <? hdr_len pkt + 4), inl tt).
+Proof.
+  destruct cc_facts as (CC & HL & NN). unfold cryptex_adjust. fold cc.
+  destruct (cc =? 0) eqn:E0; [apply Z.eqb_eq in E0; contradiction|].
+  change octets_in_rtp_header_c with 12.
+  unfold bind at 1. rewrite rd_dst_run by (fold dd; lia).
+  unfold bind at 1. rewrite rd_dst_run by (fold dd; lia).
+  unfold bind. rewrite wr_dst_run, wr_dst_run, set_dst_set_dst. cbn [set_dst w_b b_dst b_cap]. fold dd.
+  assert (L1 : lenZ (slice (zn 12) (zn (4 * cc)) dd) = 4 * cc) by (apply lenZ_slice_eq; lia).
+  assert (L2 : lenZ (slice (zn (hdr_len pkt)) (zn 4) dd) = 4) by (apply lenZ_slice_eq; lia).
+  rewrite L1, L2. unfold adjust_dst. fold n.
+  replace (zn (hdr_len pkt)) with (12 + n)%nat by (unfold zn in *; lia).
+  change (zn 12) with 12%nat. change (zn 4) with 4%nat. change (zn (12 + 4)) with 16%nat.
+  f_equal. f_equal. rewrite HL.
+  destruct (b_cap (w_b w) <? 12 + 4 + 4 * cc) eqn:A1; destruct (b_cap (w_b w) <? 12 + 4) eqn:A2;
+  destruct (b_cap (w_b w) <? 12 + 4 * cc + 4) eqn:A3; try reflexivity;
+  rewrite ?Z.ltb_lt, ?Z.ltb_ge in *; lia.
+Qed.
+
+Theorem cryptex_restore_run :
+  cryptex_restore pkt w = (set_dst w (restore_dst n dd) (b_cap (w_b w) <? hdr_len pkt + 4), inl tt).
+Proof.
+  destruct cc_facts as (CC & HL & NN). unfold cryptex_restore. fold cc.
+  destruct (cc =? 0) eqn:E0; [apply Z.eqb_eq in E0; contradiction|].
+  change octets_in_rtp_header_c with 12.
+  unfold bind at 1. rewrite rd_dst_run by (fold dd; lia).
+  unfold bind at 1. rewrite rd_dst_run by (fold dd; lia).
+  unfold bind. rewrite wr_dst_run, wr_dst_run, set_dst_set_dst. cbn [set_dst w_b b_dst b_cap]. fold dd.
+  assert (L1 : lenZ (slice (zn (12 + 4)) (zn (4 * cc)) dd) = 4 * cc) by (apply lenZ_slice_eq; lia).
+  assert (L2 : lenZ (slice (zn 12) (zn 4) dd) = 4) by (apply lenZ_slice_eq; lia).
+  rewrite L1, L2. unfold restore_dst. fold n.
+  replace (zn (12 + 4 * cc)) with (12 + n)%nat by (unfold zn in *; lia).
+  change (zn 12) with 12%nat. change (zn 4) with 4%nat. change (zn (12 + 4)) with 16%nat.
+  f_equal. f_equal. rewrite HL.
+  destruct (b_cap (w_b w) <? 12 + 4 * cc) eqn:A1; destruct (b_cap (w_b w) <? 12 + 4 * cc + 4) eqn:A2;
+  try reflexivity; rewrite ?Z.ltb_lt, ?Z.ltb_ge in *; lia.
+Qed.
+End RUN.
+
+(* restore after adjust: the destination block is what it was; nothing else changes except
+   that the oob flag is raised when *out_len does not cover the extension header *)
+Theorem cryptex_adjust_restore pkt w :
+  hdr_len pkt + 4 <= lenZ (b_dst (w_b w)) ->
+  (cryptex_adjust pkt ;;; cryptex_restore pkt) w =
+  (set_dst w (b_dst (w_b w)) (negb (hdr_cc pkt =? 0) && (b_cap (w_b w) <? hdr_len pkt + 4)), inl tt).
+Proof.
+  intros HL. destruct (hdr_cc pkt =? 0) eqn:E0.
+  - unfold cryptex_adjust, cryptex_restore. rewrite E0. cbn. rewrite set_dst_id. reflexivity.
+  - apply Z.eqb_neq in E0. unfold bind. rewrite (cryptex_adjust_run pkt w E0 HL).
+    pose proof (hdr_cc_range pkt) as CC.
+    assert (LN : (12 + zn (4 * hdr_cc pkt) + 4 <= length (b_dst (w_b w)))%nat).
+    { unfold hdr_len, lenZ, zn in *. change octets_in_rtp_header_c with 12 in HL. lia. }
+    rewrite cryptex_restore_run; [|exact E0|cbn [set_dst w_b b_dst]; unfold lenZ, adjust_dst; rewrite !splice_length; exact HL].
+    cbn [set_dst w_b b_dst b_cap]. rewrite set_dst_set_dst, restore_adjust_dst by exact LN.
+    cbn [negb andb]. rewrite orb_diag. reflexivity.
+Qed.
+
+Corollary cryptex_adjust_restore_id pkt w :
+  hdr_len pkt + 4 <= lenZ (b_dst (w_b w)) -> hdr_len pkt + 4 <= b_cap (w_b w) ->
+  (cryptex_adjust pkt ;;; cryptex_restore pkt) w = (w, inl tt).
+Proof.
+  intros HL HC. rewrite cryptex_adjust_restore by exact HL.
+  replace (b_cap (w_b w) <? hdr_len pkt + 4) with false by (symmetry; apply Z.ltb_ge; exact HC).
+  rewrite andb_false_r, set_dst_id. reflexivity.
+Qed.
+
+(* the statement needs the reads to be inside the block: a destination shorter than
+   hdr_len + 4 gets its oob flag raised by adjust *)
+Theorem cryptex_adjust_short_refuted :
+  exists (pkt : bytes) (w : world),
+    b_oob (w_b w) = false /\ b_oob (w_b (fst (cryptex_adjust pkt w))) = true.
+Proof.
+  exists [129%N; 0%N; 0%N; 0%N; 0%N; 0%N; 0%N; 0%N; 0%N; 0%N; 0%N; 0%N].
+  exists {| w_s := {| ss_template := None; ss_list := []; ss_cap := 0 |};
+            w_b := {| b_src := []; b_dst := repeat 0%N 18; b_alias := true; b_len := 18; b_cap := 18; b_oob := false |};
+            w_ev := []; w_iv := []; w_h := {| h_live := 0; h_att := 0; h_fail := 0; h_frees := 0; h_dirty := 0 |} |}.
+  split; reflexivity.
+Qed.
+
+Print Assumptions adjust_dst_layout.
+Print Assumptions restore_adjust_dst.
+Print Assumptions adjust_restore_dst.
+Print Assumptions cryptex_adjust_run.
+Print Assumptions cryptex_restore_run.
+Print Assumptions cryptex_adjust_restore.
+Print Assumptions cryptex_adjust_restore_id.
